@@ -31,6 +31,7 @@ def run(ctx):
              "escapes only into handles locked on that mutex", floor=60)
     for cls in CLASSES:
         ctx.step(check_guarded_fields, ctx, "C02.guard", cls)
+    ctx.step(common.handle_deref_lifetime, ctx, "C02.lifetime", CLASSES, floor=4)
     ctx.step(locker, ctx)
     ctx.step(share, ctx)
     ctx.step(common.handle_rules, ctx, "C02.handle", "gmlc::libguarded::shared_lock_handle", "shared")
